@@ -665,7 +665,7 @@ class Norm:
     def _opaque(self, fi: FuncInfo, recv: Optional[Term], args: Dict[str, Tuple[Term, Type]]) -> Term:
         items = [(k, v[0]) for k, v in sorted(args.items())]
         if recv is not None and fi.cls is not None and not fi.is_staticmethod and not fi.is_classmethod:
-            items = [("self", recv)] + items
+            items = sorted([("self", recv)] + items, key=lambda kv: kv[0])
         return ("call", fi.fq, tuple(items))
 
     def _is_noise(self, stmt: ast.stmt) -> bool:
@@ -900,7 +900,7 @@ class Norm:
                     fi = base.methods[func.attr]
                     args = self._bind_args(fi, node, ctx, skip_first=True)
                     recv = ctx.vars.get("self", (("sym", "self"), ANY))[0]
-                    return ("call", fi.fq, tuple([("self", recv)] + [(k, v[0]) for k, v in sorted(args.items())])), ann_to_type(
+                    return ("call", fi.fq, tuple(sorted([("self", recv)] + [(k, v[0]) for k, v in args.items()], key=lambda kv: kv[0]))), ann_to_type(
                         self.prog, fi.module, fi.node.returns, fi.cls
                     )
             return ("xcall", f"super.{func.attr}", None, tuple(self.term(a, ctx) for a in node.args), ()), ANY
